@@ -132,6 +132,37 @@ def run_main(mod_main, argv):
     return code, buf.getvalue()
 
 
+class as_pipe:
+    """the image handed over through an anonymous pipe (`... | tool -a /dev/stdin`,
+    `tool -a <(cmd)`): the name of a thing that can be read once"""
+
+    def __init__(self, path):
+        with open(path, "rb") as f:
+            self.data = f.read()
+
+    def __enter__(self):
+        import threading
+        self.r, w = os.pipe()
+
+        def feed():
+            try:
+                with os.fdopen(w, "wb") as f:
+                    f.write(self.data)
+            except OSError:
+                pass
+        self.t = threading.Thread(target=feed, daemon=True)
+        self.t.start()
+        return "/dev/fd/%d" % self.r
+
+    def __exit__(self, *a):
+        try:
+            os.close(self.r)
+        except OSError:
+            pass
+        self.t.join(5)
+        return False
+
+
 def verify_der(pub_hex, sig, digest):
     from cryptography.hazmat.primitives.asymmetric import ec
     from cryptography.hazmat.primitives.asymmetric.utils import Prehashed
@@ -303,6 +334,29 @@ def run_case_(acc, cseed, tmpdir, state):
         if code != 0 or not m or m.group(1) != want.hex():
             acc.violation("signapp-hash-differs", {"code": code, "out": out[-200:],
                                                    "want": want.hex()}, case)
+    # ---- an image read through a pipe: same hash, printed and embedded
+    if rng.random() < 0.3:
+        (p, areas, want) = rng.choice(images)
+        acc.count("images_read_through_a_pipe")
+        with as_pipe(p) as pp:
+            code, out = run_main(signapp.main, ["signapp.py", "hash", "-a", pp])
+        m = re.search(r"Computed hash: ([0-9a-f]+)", out)
+        if code != 0 or not m or m.group(1) != want.hex():
+            acc.violation("signapp-hash-differs:image-through-a-pipe",
+                          {"code": code, "out": out[-200:], "want": want.hex()}, case)
+        pm = os.path.join(tmpdir, "auth-pipe.json")
+        if os.path.exists(pm):
+            os.unlink(pm)
+        with as_pipe(p) as pp:
+            code, out = run_main(signapp.main, ["signapp.py", "message", "-a", pp, "-i", "7",
+                                                "-o", pm])
+        try:
+            docp = json.load(open(pm))
+        except Exception:
+            docp = None
+        if code != 0 or not docp or docp.get("signer") != {"hash": want.hex(), "iteration": 7}:
+            acc.violation("authorization-message-file-names-other-hash:image-through-a-pipe",
+                          {"code": code, "file": str(docp)[:200], "want_hash": want.hex()}, case)
     # ---- the hash embedded in authorization messages: each image in turn into the SAME
     # output file (so that from the second on the file already exists and names another
     # image), and printed
